@@ -79,8 +79,18 @@ func recordHilbert(out *core.Out, args []string, seed int64, sum *core.Summary) 
 			ev.Dims = []int{}
 		}
 		out.Emit(ev)
+		// Coord "writes the spatial coordinates of pos to dst": every other point goes into ONE
+		// reused destination that still holds the previous point (the table the specification
+		// judges must be the same whichever way the destination was provided)
+		reused := make([]int, d)
 		for p := start; p < start+n; p++ {
-			c := h.Coord(nil, p)
+			var c []int
+			if (p-start)%2 == 1 {
+				c = append([]int(nil), h.Coord(reused, p)...)
+			} else {
+				c = h.Coord(nil, p)
+				copy(reused, c)
+			}
 			back := h.Pos(append([]int(nil), c...))
 			pl, bl := limbs(p), limbs(back)
 			if back < 0 {
